@@ -397,7 +397,16 @@ func runHostile2(sp sessionSpec, res *sessionResult) error {
 // class that the property (and the project) excludes.
 func hugeAllocation(stacks string) bool {
 	for _, g := range strings.Split(stacks, "\n\n") {
-		if strings.Contains(g, "recvToken") && (strings.Contains(g, "[runnable]") || strings.Contains(g, "[running]")) {
+		// the two places that allocate a buffer of a peer-declared 32-bit length:
+		// literal tokens (token.go) and symlink targets (receiver/flist.go)
+		lines := strings.Split(g, "\n")
+		for i := 0; i+1 < len(lines); i++ {
+			if strings.HasPrefix(lines[i], "goroutine ") && (strings.Contains(lines[i], "[runnable]") || strings.Contains(lines[i], "[running]")) &&
+				(strings.Contains(lines[i+1], "recvToken") || strings.Contains(lines[i+1], "receiveFileEntry")) {
+				return true
+			}
+		}
+		if false {
 			return true
 		}
 	}
@@ -409,7 +418,7 @@ func allStacks() string {
 	n := runtime.Stack(buf, true)
 	var keep []string
 	for _, g := range strings.Split(string(buf[:n]), "\n\n") {
-		if strings.Contains(g, "gokrazy/rsync/") && !strings.Contains(g, "runHostile2") {
+		if strings.Contains(g, "gokrazy/rsync/") && !strings.Contains(g, "allStacks") {
 			keep = append(keep, g)
 		}
 	}
